@@ -137,29 +137,46 @@ func (env *Env) c13Fields(e *flow.Engine) {
 	it := iterFrom(pat.Const("0"), &loop)
 	elem := pat.Op(flow.OpIndex, "", pat.Is(exts), it)
 	typeOf := pat.Field(pat.Call("decode:encoding/asn1.Unmarshal", pat.Field(elem, "FullBytes")), "Type")
+	// stores into the result's fields on the inlined call tree, each on its call
+	// string (a store through a pointer parameter of a helper or function
+	// literal counts once per call that hands it a field's address)
+	type fstore struct {
+		st *ssa.Store
+		fr flow.Frame
+	}
+	fieldStores := map[string][]fstore{}
+	e.Walk(fn, false, func(in ssa.Instruction, fr flow.Frame) {
+		st, ok := in.(*ssa.Store)
+		if !ok {
+			return
+		}
+		at := e.Eval(st.Addr, fr.Ctx)
+		if at.Op != flow.OpAddr || len(at.Args) != 1 || at.Args[0].Op != flow.OpField || len(at.Args[0].Args) != 1 {
+			return
+		}
+		base := flow.StripConv(at.Args[0].Args[0])
+		if base.Op == flow.OpNew && strings.HasPrefix(base.Name, "pcs.PckExtensions#") {
+			fieldStores[at.Args[0].Name] = append(fieldStores[at.Args[0].Name], fstore{st, fr})
+		}
+	})
 	for _, f := range []struct{ field, oid, size, label string }{
 		{"PPID", "pcs.OidPPID", env.repoConst("pcs", "ppidSize"), `"PPID"`},
 		{"PCEID", "pcs.OidPCEID", env.repoConst("pcs", "pceIDSize"), `"PCEID"`},
 		{"FMSPC", "pcs.OidFMSPC", env.repoConst("pcs", "fmspcSize"), `"FMSPC"`},
 	} {
-		var sts []*ssa.Store
-		for _, s := range env.storesTo("pcs.PckExtensions", f.field) {
-			if s.Parent().Pkg != nil && s.Parent().Pkg.Pkg.Path() == load.RepoPath("pcs") {
-				sts = append(sts, s)
-			}
-		}
-		if len(sts) != 1 || sts[0].Parent() != fn {
+		sts := fieldStores[f.field]
+		if len(sts) != 1 {
 			r.Fail("C13/SEL", f.field, env.P.Pos(fn.Pos()), fmt.Sprintf("PckExtensions.%s must have exactly one store, in the selection loop (found %d)", f.field, len(sts)))
 			continue
 		}
-		st := sts[0]
+		st, sfr := sts[0].st, sts[0].fr
 		guard := pat.Call("(encoding/asn1.ObjectIdentifier).Equal", typeOf, pat.Global(f.oid))
-		okGuard := env.guardHas(e, fn, st.Block(), guard)
-		v := e.Eval(st.Val, e.Root(fn))
+		okGuard := env.guardHasFr(e, sfr, st.Block(), guard)
+		v := e.Eval(st.Val, sfr.Ctx)
 		// value: hex of the octet string of the same element with the field's own size
 		wantSize := pat.Const(f.size)
 		okVal := pat.Contains(pat.Call("encoding/hex.EncodeToString", pat.Any()))(v, pat.Bind{}) &&
-			pat.Contains(elem)(v, pat.Bind{}) && valueUsesSize(e, st, wantSize)
+			pat.Contains(elem)(v, pat.Bind{}) && valueUsesSize(e, st, wantSize, sfr.Ctx)
 		if okGuard && okVal {
 			r.OK("C13/SEL", f.field, env.P.Pos(st.Pos()), "stored under Equal(element OID, "+f.oid+") from the same element with size "+f.size)
 		} else {
@@ -167,18 +184,12 @@ func (env *Env) c13Fields(e *flow.Engine) {
 		}
 	}
 	// TCB
-	var sts []*ssa.Store
-	for _, s := range env.storesTo("pcs.PckExtensions", "TCB") {
-		if s.Parent() == fn {
-			sts = append(sts, s)
-		}
-	}
-	if len(sts) == 1 {
+	if sts := fieldStores["TCB"]; len(sts) == 1 {
 		guard := pat.Call("(encoding/asn1.ObjectIdentifier).Equal", typeOf, pat.Global("pcs.OidTCB"))
-		if env.guardHas(e, fn, sts[0].Block(), guard) {
-			r.OK("C13/SEL", "TCB", env.P.Pos(sts[0].Pos()), "stored under Equal(element OID, pcs.OidTCB)")
+		if env.guardHasFr(e, sts[0].fr, sts[0].st.Block(), guard) {
+			r.OK("C13/SEL", "TCB", env.P.Pos(sts[0].st.Pos()), "stored under Equal(element OID, pcs.OidTCB)")
 		} else {
-			r.Fail("C13/SEL", "TCB", env.P.Pos(sts[0].Pos()), "PckExtensions.TCB must be assigned only under Equal(element.Type, pcs.OidTCB)")
+			r.Fail("C13/SEL", "TCB", env.P.Pos(sts[0].st.Pos()), "PckExtensions.TCB must be assigned only under Equal(element.Type, pcs.OidTCB)")
 		}
 	} else {
 		r.Fail("C13/SEL", "TCB", env.P.Pos(fn.Pos()), fmt.Sprintf("PckExtensions.TCB must have exactly one store in the selection loop (found %d)", len(sts)))
@@ -199,7 +210,7 @@ func (env *Env) c13Fields(e *flow.Engine) {
 }
 
 // valueUsesSize: the call chain producing the stored value passes the size constant.
-func valueUsesSize(e *flow.Engine, st *ssa.Store, size pat.M) bool {
+func valueUsesSize(e *flow.Engine, st *ssa.Store, size pat.M, ctx *flow.Ctx) bool {
 	v := st.Val
 	for i := 0; i < 4; i++ {
 		switch x := v.(type) {
@@ -208,7 +219,7 @@ func valueUsesSize(e *flow.Engine, st *ssa.Store, size pat.M) bool {
 			continue
 		case *ssa.Call:
 			for _, a := range x.Call.Args {
-				if size(e.Eval(a, e.Root(st.Parent())), pat.Bind{}) {
+				if size(e.Eval(a, ctx), pat.Bind{}) {
 					return true
 				}
 			}
@@ -238,7 +249,7 @@ func (env *Env) c13Tcb(e *flow.Engine) {
 		in ssa.Instruction
 		fr flow.Frame
 	}
-	var comp, cpu, cs, u8c, u16c []site
+	var comp, cpu, cs, pce, u8c, u16c []site
 	var frames []flow.Frame
 	seenFr := map[string]bool{}
 	seenIn := map[ssa.Instruction]bool{}
@@ -266,6 +277,8 @@ func (env *Env) c13Tcb(e *flow.Engine) {
 					switch k.Field {
 					case "CPUSvn":
 						add(&cpu, in, fr)
+					case "PCESvn":
+						add(&pce, in, fr)
 					case "CPUSvnComponents":
 						add(&cs, in, fr)
 					}
@@ -360,13 +373,23 @@ rest:
 		_ = val
 		// the out parameter receives the converted value
 		okStore := false
-		for _, b := range c.fn.Blocks {
-			for _, in := range b.Instrs {
-				if st, ok := in.(*ssa.Store); ok && st.Addr == ssa.Value(c.fn.Params[2]) {
-					v := ee.Eval(st.Val, ee.Root(c.fn))
-					if pat.Conv(pat.Field(pat.Is(ext), "Value"))(v, pat.Bind{}) {
-						okStore = true
+		if len(c.fn.Params) > 2 {
+			for _, b := range c.fn.Blocks {
+				for _, in := range b.Instrs {
+					if st, ok := in.(*ssa.Store); ok && st.Addr == ssa.Value(c.fn.Params[2]) {
+						v := ee.Eval(st.Val, ee.Root(c.fn))
+						if pat.Conv(pat.Field(pat.Is(ext), "Value"))(v, pat.Bind{}) {
+							okStore = true
+						}
 					}
+				}
+			}
+		} else if c.fn.Signature.Results().Len() == 2 {
+			// the value-returning form: every success return yields the converted value
+			okStore = len(alts) > 0
+			for _, a := range alts {
+				if len(a.Results) == 0 || !pat.Conv(pat.Field(pat.Is(ext), "Value"))(a.Results[0], pat.Bind{}) {
+					okStore = false
 				}
 			}
 		}
@@ -380,8 +403,17 @@ rest:
 	typeOfElem := pat.Field(pat.Call("decode:encoding/asn1.Unmarshal", pat.Any()), "Type")
 	for _, sc := range u16c {
 		c := sc.in.(*ssa.Call)
-		out := e.Eval(c.Call.Args[2], sc.fr.Ctx)
-		okOut := out.Op == flow.OpAddr && flow.Eq(out.Args[0], fieldT(tcb, "PCESvn"))
+		okOut := false
+		if len(c.Call.Args) > 2 {
+			out := e.Eval(c.Call.Args[2], sc.fr.Ctx)
+			okOut = out.Op == flow.OpAddr && flow.Eq(out.Args[0], fieldT(tcb, "PCESvn"))
+		} else if len(pce) == 1 {
+			// the value-returning form: tcb.PCESvn = the helper's value
+			st := pce[0].in.(*ssa.Store)
+			if ex, ok := st.Val.(*ssa.Extract); ok && ex.Tuple == ssa.Value(c) && ex.Index == 0 {
+				okOut = flow.Eq(flow.StripConv(e.Eval(st.Addr.(*ssa.FieldAddr).X, pce[0].fr.Ctx)), tcb)
+			}
+		}
 		okGuard := env.guardHasFr(e, sc.fr, c.Block(), pat.Call("(encoding/asn1.ObjectIdentifier).Equal", typeOfElem, pat.Global("pcs.OidPCESvn")))
 		if okOut && okGuard {
 			r.OK("C13/TCB", "PCESvn", env.P.Pos(c.Pos()), "tcb.PCESvn assigned under Equal(OID, pcs.OidPCESvn) through the 16-bit range check")
@@ -524,10 +556,13 @@ func (env *Env) c13Unmarshal(e *flow.Engine) {
 					continue
 				}
 				n++
-				if hasGateAny(a, pat.Bin("==", pat.Res("1", pat.Is(ct)), pat.Const("nil"))) == nil {
+				// (on an alternative the call's operands are definite: a lookup
+				// helper's result is the one of the exit taken)
+				cta := pat.OneOf(pat.Is(ct), pat.Is(ee.Eval(c, a.Ctx)))
+				if hasGateAny(a, pat.Bin("==", pat.Res("1", cta), pat.Const("nil"))) == nil {
 					okErr = false
 				}
-				if hasGateAny(a, pat.Empty(pat.Res("0", pat.Is(ct)))) == nil {
+				if hasGateAny(a, pat.Empty(pat.Res("0", cta))) == nil {
 					okRest = false
 				}
 			}
